@@ -65,6 +65,14 @@ impl Tape {
         Tape { cfg, recs }
     }
 
+    pub fn to_bytes(&self) -> Vec<u8> {
+        let mut v = self.cfg.to_vec();
+        for r in &self.recs {
+            v.extend_from_slice(r);
+        }
+        v
+    }
+
     pub fn hash64(&self) -> u64 {
         let mut h = Fnv::new();
         h.write(&self.cfg);
